@@ -27,8 +27,9 @@ RULE = (
     "ALL permutations of arrival order when the set has <= 6 (quick) / 7 (thorough) messages, otherwise Hypothesis-"
     "generated permutations and task interleavings; ALL subsets when <= 9 (quick) / 12 (thorough) messages, otherwise "
     "generated subsets. Oracles: Task equality across orders, equality with an independent reference tree, completion "
-    "reported exactly at the last message of a task and once, proper subsets never complete, parse_stream yields every "
-    "uuid once with incomplete ones last. Non-trivial: >= 5 messages with depth >= 2 and (an order delivering a descendant "
+    "reported exactly at the last message of a task and once (Parser.add, and parse_stream reading a lazy source: yielded "
+    "when exactly that many messages were read), proper subsets never complete, parse_stream yields every uuid once with "
+    "incomplete ones last. Non-trivial: >= 5 messages with depth >= 2 and (an order delivering a descendant "
     "before its ancestor's start, or a subset missing an inner message). Distinct = canonical JSON of the case."
 )
 ASSUMPTIONS = [
@@ -210,6 +211,37 @@ def check_messages(tasks_msgs, orders, subsets, perm_limit, subset_limit):
                     % (list(perm), got, seen[u], size[u], u),
                 )
         require(parser.incomplete_tasks() == [], "leftover", "incomplete tasks left after all messages: %r" % (parser.incomplete_tasks(),))
+        if nperm <= 2 or nperm % 5 == 0:
+            # the same order through parse_stream reading a lazy (live) source: a task is yielded when its last
+            # message has been read, not when some later message arrives
+            consumed = [0]
+            order = list(perm)
+
+            def live():
+                for i in order:
+                    consumed[0] += 1
+                    yield full[i]
+
+            last_pos = {}
+            for pos, i in enumerate(order):
+                last_pos[full[i]["task_uuid"]] = pos + 1
+            yielded = []
+            try:
+                for t in Parser.parse_stream(live()):
+                    u = t.root().task_uuid
+                    yielded.append(u)
+                    require(t.is_complete(), "stream-incomplete", lambda: "parse_stream yielded %s incomplete although all its messages are in the stream" % u)
+                    require(
+                        consumed[0] == last_pos[u],
+                        "completion-late",
+                        lambda: "order %r: parse_stream yielded %s after reading %d messages; its last message was number %d" % (order, u, consumed[0], last_pos[u]),
+                    )
+            except Violation:
+                raise
+            except Exception as e:
+                raise Violation("parse_stream-raised", "%r on order %r" % (e, order))
+            require(sorted(yielded) == sorted(uuids), "yield-once", lambda: "parse_stream yielded %r for uuids %r" % (yielded, sorted(uuids)))
+            info["live_streams"] = info.get("live_streams", 0) + 1
         for u in uuids:
             t = done[u]
             require(t.is_complete(), "complete-flag", "returned task not is_complete()")
